@@ -28,6 +28,9 @@ pub struct PW<'a> {
     pub raw_receiver: Option<String>,
     /// the next `update_config` also re-points the fee collector to this account
     pub next_fee_collector: Option<Addr>,
+    /// the scenario's author knows that the two-step sequence (swap half, deposit) would be accepted here, so the next
+    /// single-asset deposit has to be accepted as well
+    pub expect_ok: bool,
 }
 
 pub fn fees(protocol: u64, swap: u64, burn: u64, extra: &[u64]) -> PoolFee {
@@ -80,7 +83,7 @@ impl<'a> PW<'a> {
         let mask = Mask { pools: true, farms: true, epoch: true, owners: false };
         let st = s.snapshot(mask);
         t.reset(name, st);
-        PW { s, t, mask, model_note: None, watch: vec![], watch_denoms: vec![], base: vec![], raw_receiver: None, next_fee_collector: None }
+        PW { s, t, mask, model_note: None, watch: vec![], watch_denoms: vec![], base: vec![], raw_receiver: None, next_fee_collector: None, expect_ok: false }
     }
     pub fn user(&self, i: usize) -> Addr {
         self.s.users[i].clone()
@@ -177,7 +180,7 @@ impl<'a> PW<'a> {
             "receiver": receiver.map(|a| self.s.sym_of(a.as_str())).unwrap_or("none".into()),
             "lock": match lock_dur { Some(d) => json!({"set": true, "dur": limbs64(d)}), None => json!({"set": false, "dur": []}) },
             "lock_id": lock_id.unwrap_or("none"), "liq_slip": opt_dec_json(liq_slip), "swap_slip": opt_dec_json(swap_slip),
-            "single": funds.len() == 1, "half_quote": half_quote,
+            "single": funds.len() == 1, "half_quote": half_quote, "expect_ok": std::mem::take(&mut self.expect_ok),
             "added_shares": if shares.is_empty() { json!([]) } else { limbs_str(&shares) }});
         self.finish("pm_provide", body, &r)
     }
@@ -583,6 +586,20 @@ fn sc_liquidity(t: &mut Tracer, ss_decs: [u8; 2], name: &str) {
             2 => { w.provide(&a, "o.cp1", &[coin(10_001, "uusdc")], None, Some(DAY), None, None, Some(Decimal::percent(50))); }
             _ => { w.provide(&a, "o.ss1", &[coin(10_001, "uusd")], None, None, None, None, Some(Decimal::percent(50))); }
         }
+    }
+    // tokens the contract holds outside this pool's books (a donation, the odd unit of an earlier deposit, another pool's
+    // reserve of the same denom) do not stand in the way of a single-asset deposit
+    {
+        w.donate(&b, coin(1, "uusdt"));
+        w.donate(&b, coin(12_345, "uusdc"));
+        for amt in [10_001u128, 10_001, 20_000] {
+            w.expect_ok = true;
+            w.provide(&a, "o.cp1", &[coin(amt, "uusdc")], None, None, None, None, Some(Decimal::percent(50)));
+            w.expect_ok = true;
+            w.provide(&a, "o.cp1", &[coin(amt, "uusdt")], None, None, None, None, Some(Decimal::percent(50)));
+        }
+        w.expect_ok = true;
+        w.provide(&a, "o.ss1", &[coin(10_001, "uusdc")], None, None, None, None, Some(Decimal::percent(50)));
     }
     // every provider leaves: the supply is exactly the locked minimum; the next deposit is an ordinary, proportional one
     for (kind, id) in [(CP, "left"), (SS(85), "lefts")] {
